@@ -481,8 +481,8 @@ def check_cases(chk: Check, cases, guard):
         else:
             iv = {'labels': mv['labels'], 'counts': [[r.count('ok'), r.count('refused')] for r in out['results']],
                   'owner': out['owner']}
-            if not out['idents_distinct']:
-                continue          # the model's thread ids are distinct by construction; covered by the oracle above
+            if not ok:
+                continue          # F-C20a: the model's thread ids are distinct by construction; the oracle reported it
         if iv != mv:
             chk.broken('correspondence:C20_Model.observe', f'implementation {iv} vs model {mv}', c)
         else:
